@@ -516,6 +516,11 @@ func userPtype(n *node) bool {
 func emitMatrix(g *core.G, c px.Context, root *node) { emitMatrix2(g, c, root, false) }
 
 func emitMatrix2(g *core.G, c px.Context, root *node, random bool) {
+	emitMatrix3(g, c, root, random, []int{0, 1, 20, 1000000})
+}
+
+// emitMatrix3: every option combination and capability corner, the given thresholds
+func emitMatrix3(g *core.G, c px.Context, root *node, random bool, thrs []int) {
 	val, ok := finish(c, root)
 	if !ok {
 		// every value of the generator's catalogue is a value pcore can build on the unchanged tree: when it cannot, that is
@@ -532,7 +537,7 @@ func emitMatrix2(g *core.G, c px.Context, root *node, random bool) {
 			for dedup := 0; dedup <= 2; dedup++ {
 				for _, bin := range []bool{true, false} {
 					for _, cplx := range []bool{true, false} {
-						for _, thr := range []int{0, 1, 20, 1000000} {
+						for _, thr := range thrs {
 							at := ""
 							if only || (hard && !rich && !cplx) {
 								at = "@"
@@ -649,6 +654,54 @@ func fixedValues() []string {
 	return out
 }
 
+// deepChains: containers nested inside each other, every level with elements BEFORE and AFTER the nested container (a
+// consumer that keeps one frame per open container must come back to the right frame when the nested one ends: a frame
+// stack that is reallocated while a doer runs - 8, 16 frames - loses what is added to the enclosing containers afterwards).
+// Shapes: arrays, string-keyed hashes, a mix (array / hash / Sensitive / integer-keyed hash / object instance), and a rich
+// value whose levels cost three or four stream levels each ({Integer => Sensitive([…, nested, default]), 'tail' => Regexp}).
+// Value depths are chosen so that the stream depth passes 8 and 16 from one below to two above, whatever a level costs.
+func deepChains() []string {
+	L := s(longStr)
+	var out []string
+	chain := func(depth int, level func(i int, id int64, nested string) string, innermost string) string {
+		v := innermost
+		for i := depth; i >= 1; i-- {
+			v = level(i, int64(10*i), v)
+		}
+		return v
+	}
+	arr := func(i int, id int64, nested string) string {
+		return fmt.Sprintf("(a %d (i %d) %s %s (i %d))", id, i, nested, s(fmt.Sprintf("after %d", i)), -i)
+	}
+	hsh := func(i int, id int64, nested string) string {
+		return fmt.Sprintf("(h %d (%s (i %d)) (%s %s) (%s %s) (%s %s))", id, s("before"), i, s("nested"), nested, s("after"), s(fmt.Sprintf("after %d", i)), L, L)
+	}
+	mixed := func(i int, id int64, nested string) string {
+		switch i % 5 {
+		case 0:
+			return arr(i, id, nested)
+		case 1:
+			return hsh(i, id, nested)
+		case 2:
+			return fmt.Sprintf("(a %d (i %d) (sn %d %s) %s)", id, i, id+1, nested, L)
+		case 3:
+			return fmt.Sprintf("(h %d ((i %d) (i %d)) ((i %d) %s) ((b t) %s))", id, i, i, -i, nested, s(fmt.Sprintf("after %d", i)))
+		default:
+			return fmt.Sprintf("(o %d %s x (x61 %s) (x62 %s))", id, h("Verif::Pair"), nested, s(fmt.Sprintf("after %d", i)))
+		}
+	}
+	rich := func(i int, id int64, nested string) string {
+		return fmt.Sprintf("(h %d ((i %d) (sn %d (a %d (i %d) %s (df)))) (%s (l %d rx %s x)))", id, i, id+1, id+2, i, nested, s("tail"), id+3, h("a.*b"))
+	}
+	for _, d := range []int{6, 7, 8, 9, 10, 15, 16, 17, 18} {
+		out = append(out, chain(d, arr, "(a 1 "+s("leaf")+")"), chain(d, hsh, "(h 1 ("+s("leaf")+" (u)))"), chain(d, mixed, "(a 1 "+s("leaf")+" (x 2 x010203))"))
+	}
+	for _, d := range []int{2, 3, 4, 5, 6} {
+		out = append(out, chain(d, rich, "(a 1 "+s("leaf")+")"))
+	}
+	return out
+}
+
 // exhaustive small universe: every array of at most n elements drawn from seven templates, where a repeated template
 // is the SAME object (or an equal string) again
 func smallUniverse(n int) []string {
@@ -694,6 +747,14 @@ func gen(g *core.G) {
 	ensureCatalogue(c)
 	for _, v := range fixedValues() {
 		emitText(g, c, v)
+	}
+	// deep chains: containers inside each other, stream depth around every reallocation of a collector's frame stack
+	for _, v := range deepChains() {
+		xs, err := sx.Parse(v)
+		if err != nil || len(xs) != 1 {
+			panic("bad deep chain " + v)
+		}
+		emitMatrix3(g, c, parse(xs[0], map[int64]*node{}, map[int64]bool{}), false, []int{0, 1000000})
 	}
 	// exhaustive small universe: all arrays of <= 3 elements over the seven templates (thorough: <= 4 is 2800 arrays, sampled)
 	for _, v := range smallUniverse(3) {
